@@ -51,8 +51,6 @@ NOT_APPLICABLE = {
            'anyhow::Result; bringing it into Verus means replacing those parts by hand (a model, not the code); Kani runs out '
            'of memory on any harness that constructs a Sodg',
     'C12': 'same obstacle as C11: HashMap/HashSet algebra and format! in merge(); no contract within reach of either verifier',
-    'C13': 'work-list over HashSet::drain().collect() and closure-filtered iterator chains; neither verifier ingests it, '
-           'Kani cannot hold a Sodg',
     'C14': 'regex, str::split/trim, u8::from_str_radix: Verus has no str byte reasoning, Kani cannot execute regex',
     'C17': 'starts_with, chars().skip().collect(), parse::<usize>(), format!: outside Verus; Kani timed out (15 min) on a one-character input',
     'C18': 'the observable is a document produced by xml-builder, format! and itertools::sorted; no contract can speak about it',
@@ -214,7 +212,7 @@ PROPS = {
          'microstack::Stack::from_vec() does not check its length (used only with a one-element vector in empty())',
          'microstack::Stack::new() uses uninit().assume_init() on an array of MaybeUninit-free values (assumption)',
          'leaks (emap never drops its elements) are not memory errors in the property\'s sense'],
-        extra=dict(units=['U_ops', 'U_guard'],
+        extra=dict(units=['U_ops', 'U_guard', 'U_slice'],
                    level_note='Trusted: Verus/Z3; the total- and guard-mode container contracts (emap/micromap/microstack panic '
                               'before any out-of-range access when debug assertions are on: audited by bounded Kani harnesses, '
                               'not proved); debug-assertion builds (the property\'s own premise).')),
@@ -237,8 +235,41 @@ PROPS = {
         'all *-step / result clauses are premises; a failing one is a C19 violation only when the function newly consults a size '
         'parameter (N, capacity, MAX_*) or a nondeterminism source it did not consult on the unchanged tree.',
         ['merge() and slice() (hash containers) are not covered', 'next_id() body: see C05'],
-        extra=dict(classify=classify_config_sensitive(SENSITIVE_SIZE + SENSITIVE_NONDET))),
+        extra=dict(units=['U_ops', 'U_model', 'U_slice'], classify=classify_config_sensitive(SENSITIVE_SIZE + SENSITIVE_NONDET))),
 
+    'C13': dict(
+        units=['U_slice', 'U_model'], level='proof',
+        technique='contract-based deductive verification (Verus) of the real slice()/slice_some(): work-list invariant '
+                  '(discovered / queued / expanded sets), rebuild invariant, termination measures; callees empty/add/bind '
+                  'by contract only; std HashSet and the emap filter iterator by trusted contracts',
+        level_text='Unbounded proof on the extracted real slice_some()/slice(): for every well-formed source graph, every '
+                   'start id below the capacity and every total deterministic predicate, within the stated limit (at most 15 '
+                   'vertices kept, so that the group table of the new graph cannot overflow) the call returns Ok, the '
+                   'present ids of the result are exactly the ids reachable along accepted edges, each kept vertex carries '
+                   'exactly the source edges whose target is kept (in source order), nothing else exists in it, and every '
+                   'loop terminates (also on cyclic graphs). The source is borrowed immutably.',
+        level_note='Trusted: Verus/Z3; contracts of std HashSet<usize> (new/insert/contains/is_empty/drain+collect, iteration '
+                   'order unspecified), of the emap iterator filter(), of emap/micromap/microstack (shim/), micromap length <= N; '
+                   'the contracts of empty/add/bind are taken as given here and proved in U_ops. Limit: at most 15 kept '
+                   'vertices (sufficient for the group table: 14 groups of 16). Data is not copied by slice (the property '
+                   'does not ask for it).',
+        design_ref='DESIGN.md §4 C13',
+        trusted_base=GRAPH_TRUSTED + [
+            'std::collections::HashSet<usize>: new/insert/contains/is_empty/drain().collect() specified over a finite ghost set; '
+            'the order in which drain() yields is left unspecified (the proof holds for every order)',
+            'emap::Iter::filter(..) as an iterator (next() returns the next accepted slot; skipped slots were rejected)',
+            'micromap::Map view has at most N pairs (fixed array)',
+            'contracts of Sodg::empty/add/bind: taken by contract only in this unit (external_body), proved in U_ops'],
+        explanation='is_slice(src, pf, v, result) as postcondition of the real code; lemmas L13: the preconditions '
+                    '"edge targets are in range, no self-loops" are invariants of every history; the slice is determined '
+                    'by the abstract source graph (independent of N, of how the graph was built and of hash iteration order).',
+        not_covered=['slices of more than 15 vertices (outside the stated limit; larger ones may exceed the 14x16 group table)',
+                     'whether p is called with the arguments the property intends is part of the contract (v, target, label)'],
+        assumptions=['the predicate p is total and deterministic (pred_ok): same arguments, same answer',
+                     'at most 15 vertices are reachable along accepted edges (reach_bound): the limit within which the '
+                     'rebuilt graph fits the fixed group table',
+                     'the source graph was built through the API (wf, edge targets in range, no self-loops: lemmas L13)'],
+    ),
     'C15': dict(
         units=['U_hex'], level='proof',
         technique='contract-based deductive verification (Verus on extracted src/hex.rs) + complete loop-free Kani '
